@@ -52,6 +52,7 @@ func c03Alphabet() []Op {
 		Op{K: "reject", P: "/h", Ms: []string{"get"}},
 		Op{K: "reject", P: "/a", Ms: []string{"PATCH", "BOGUS"}},
 		Op{K: "reject", P: "/az", Ms: []string{"GET", "GET"}},
+		Op{K: "use"},
 	)
 	return ops
 }
@@ -233,7 +234,7 @@ func c03Expand(raw json.RawMessage) (any, error) {
 			if modelHandler(pt, q, before.exp[i]) != modelHandler(t, q, after.exp[i]) {
 				continue
 			}
-			if b, a := before.obs[i].Summary(), after.obs[i].Summary(); a != b {
+			if b, a := frameSummary(before.obs[i]), frameSummary(after.obs[i]); a != b {
 				c.Viols = append(c.Viols, explore.Violation{Property: "C03", Clause: "C03.frame", Class: "frame-broken", Config: cfg.Router.String(), History: hs,
 					Probe: q.String(), Observed: "before: " + b + " ; after: " + a, Expected: "unchanged by " + op.String()})
 				break
@@ -247,6 +248,19 @@ func c03Expand(raw json.RawMessage) (any, error) {
 		kids = append(kids, c)
 	}
 	return kids, nil
+}
+
+// frameSummary is what the frame condition compares: the handling of a request up to the middleware wrappers
+// (Use legitimately re-wraps every handler).
+func frameSummary(o *hv.Obs) string {
+	if o.Paniced {
+		return fmt.Sprintf("PANIC(%v)", o.Panic)
+	}
+	allow := ""
+	if o.Header != nil {
+		allow = o.Header.Get("Allow")
+	}
+	return fmt.Sprintf("st=%d core=%s pat=%q node.allow=%q hdr.allow=%q ps=%s", o.Status, o.CoreID, o.Pattern, o.Allow, allow, hv.ParamsString(o.Params))
 }
 
 // modelHandler is the handler the model predicts when the admissible set is a singleton.
@@ -342,6 +356,11 @@ func init() {
 		rc.Set("depth_bound", depth)
 		for _, cfg := range []RouterCfg{{}, {Trace: true}} {
 			explore.BFS(rc, "c03/expand", c03Cfg{Router: cfg}, depth, true, "C03 "+cfg.String())
+		}
+		// the other options must not change the life cycle: the lock (sequentially: every path has to release it),
+		// and an interceptor set that turns the \d+ rule of the pool into an interceptor
+		for _, cfg := range []RouterCfg{{Lock: true}, {IC: "I2"}} {
+			explore.BFS(rc, "c03/expand", c03Cfg{Router: cfg}, depth-1, true, "C03 "+cfg.String())
 		}
 		// no-dedup pass: every history literally enumerated
 		nd := 2
